@@ -9,6 +9,11 @@ use crate::world::Role;
 pub enum Family {
     C03,
     C04,
+    C05,
+    C06,
+    C08,
+    C13,
+    C14,
 }
 
 impl Family {
@@ -16,6 +21,11 @@ impl Family {
         Some(match s {
             "C03" => Family::C03,
             "C04" => Family::C04,
+            "C05" => Family::C05,
+            "C06" => Family::C06,
+            "C08" => Family::C08,
+            "C13" => Family::C13,
+            "C14" => Family::C14,
             _ => return None,
         })
     }
@@ -23,16 +33,26 @@ impl Family {
         match self {
             Family::C03 => "C03",
             Family::C04 => "C04",
+            Family::C05 => "C05",
+            Family::C06 => "C06",
+            Family::C08 => "C08",
+            Family::C13 => "C13",
+            Family::C14 => "C14",
         }
     }
 }
 
-pub const ALL_FAMILIES: &[Family] = &[Family::C03, Family::C04];
+pub const ALL_FAMILIES: &[Family] = &[Family::C03, Family::C04, Family::C05, Family::C06, Family::C08, Family::C13, Family::C14];
 
 pub fn generate(f: Family, ch: &mut Choices) -> Plan {
     match f {
         Family::C03 => gen_c03(ch),
         Family::C04 => gen_c04(ch),
+        Family::C05 => gen_outbound(OutKind::C05, ch),
+        Family::C06 => gen_outbound(OutKind::C06, ch),
+        Family::C08 => gen_outbound(OutKind::C08, ch),
+        Family::C13 => gen_outbound(OutKind::C13, ch),
+        Family::C14 => gen_outbound(OutKind::C14, ch),
     }
 }
 
@@ -160,8 +180,12 @@ pub fn mk_publish(ver: Ver, ch: &mut Choices, idx: u32, qos: u8, pid: Option<u16
 // ------------------------------------------------------------------------------------------
 // C03: inbound PUBLISH handled once, acknowledged per QoS
 
+pub fn pick_role(ch: &mut Choices) -> Role {
+    *ch.pick(&[Role::S5, Role::S3, Role::C5, Role::C3])
+}
+
 fn gen_c03(ch: &mut Choices) -> Plan {
-    let role = Role::S5;
+    let role = pick_role(ch);
     let mut plan = base_plan("C03", role, ch);
     let ver = role.ver();
     plan.cfg.min_chunk = *ch.pick(&[32 * 1024u32, 0, 4, 1024]);
@@ -171,13 +195,19 @@ fn gen_c03(ch: &mut Choices) -> Plan {
     plan.w_payload = *ch.pick(&[[1u32, 0, 0], [3, 2, 0], [3, 1, 1]]);
     plan.ending = if ch.chance(1, 5) { Ending::Stop } else { Ending::Settle };
 
+    // KNOWN FINDING (C03/wrong-ack-type/C?/q2-PUBACK): the client role answers an inbound QoS 2
+    // PUBLISH with PUBACK. Half of the client-role runs avoid inbound QoS 2 so that the finding
+    // does not blind the rest of the family.
+    let client_q2 = role.is_server() || ch.chance(1, 2);
     let n = 1 + ch.choose(8);
     let mut pubrels: Vec<PeerStep> = Vec::new();
     let mut next_pid = 1u16;
     for i in 0..n {
-        match ch.weighted(&[70, 10, 10, 10]) {
+        let wsub = if role.is_server() { 10 } else { 0 };
+        // a server never sends PINGREQ: keep it out of the client-role scripts of this family
+        match ch.weighted(&[70, wsub, wsub, wsub]) {
             0 => {
-                let qos = ch.choose(3) as u8;
+                let qos = if client_q2 { ch.choose(3) as u8 } else { ch.choose(2) as u8 };
                 let pid = if qos > 0 {
                     let p = next_pid;
                     next_pid += 1;
@@ -221,5 +251,211 @@ fn gen_c03(ch: &mut Choices) -> Plan {
 }
 
 fn gen_c04(ch: &mut Choices) -> Plan {
-    gen_c03(ch)
+    let mut p = gen_c03(ch);
+    p.family = "C04";
+    p
+}
+
+// ------------------------------------------------------------------------------------------
+// outbound families: C05 window, C06 acks, C13 blocked senders, C14 QoS2, C08 wire
+
+#[derive(Clone, Copy, PartialEq, Eq)]
+pub enum OutKind {
+    C05,
+    C06,
+    C13,
+    C14,
+    C08,
+}
+
+/// The send limit the statement of C05 defines for this plan.
+pub fn send_limit(plan: &Plan) -> u32 {
+    let cfg = &plan.cfg;
+    let configured = u32::from(cfg.hs_max_send.filter(|v| *v != 0).unwrap_or(cfg.max_send));
+    match plan.role {
+        Role::S5 => {
+            let peer = rc::prop_u16(&plan.peer.connect.props, 33).map(u32::from);
+            peer.map_or(configured, |p| p.min(configured))
+        }
+        Role::S3 => configured,
+        Role::C5 => u32::from(rc::prop_u16(&plan.peer.connack_props, 33).unwrap_or(65535)),
+        Role::C3 => u32::from(cfg.max_send),
+    }
+}
+
+fn gen_outbound(kind: OutKind, ch: &mut Choices) -> Plan {
+    let role = pick_role(ch);
+    let name = match kind {
+        OutKind::C05 => "C05",
+        OutKind::C06 => "C06",
+        OutKind::C13 => "C13",
+        OutKind::C14 => "C14",
+        OutKind::C08 => "C08",
+    };
+    let mut plan = base_plan(name, role, ch);
+    let v5 = role.ver() == Ver::V5;
+    // the window
+    let limit = 1 + ch.choose(4) as u16;
+    match role {
+        Role::S5 => match ch.choose(3) {
+            0 => plan.peer.connect.props.push((33, PropVal::U16(limit))),
+            1 => plan.cfg.max_send = limit,
+            _ => {
+                plan.cfg.hs_max_send = Some(limit);
+                if ch.chance(1, 2) {
+                    plan.peer.connect.props.push((33, PropVal::U16(limit + ch.choose(3) as u16)));
+                }
+            }
+        },
+        Role::S3 => {
+            if ch.chance(1, 2) {
+                plan.cfg.max_send = limit;
+            } else {
+                plan.cfg.hs_max_send = Some(limit);
+            }
+        }
+        Role::C5 => plan.peer.connack_props.push((33, PropVal::U16(limit))),
+        Role::C3 => plan.cfg.max_send = limit,
+    }
+    if kind == OutKind::C06 && ch.chance(1, 4) {
+        // wide window so that several exchanges are outstanding together
+        match role {
+            Role::S5 | Role::S3 => {
+                plan.cfg.max_send = 16;
+                plan.cfg.hs_max_send = None;
+                plan.peer.connect.props.retain(|(id, _)| *id != 33);
+            }
+            Role::C5 => plan.peer.connack_props.retain(|(id, _)| *id != 33),
+            Role::C3 => plan.cfg.max_send = 16,
+        }
+    }
+    let limit = send_limit(&plan) as usize;
+    // senders
+    let n_senders = match kind {
+        OutKind::C14 => 2 + ch.choose(3) as usize,
+        _ => 1 + ch.choose((limit.min(4) + 3) as u32) as usize,
+    };
+    let qos2_ok = kind == OutKind::C14 || ch.chance(1, 2);
+    for _ in 0..n_senders {
+        let mut ops = Vec::new();
+        let n_ops = 1 + ch.choose(3);
+        for _ in 0..n_ops {
+            let len = ch.choose(40);
+            let mut w: [u32; 6] = match kind {
+                OutKind::C14 => [10, 30, 60, 5, 5, 5],
+                OutKind::C08 => [25, 25, 10, 10, 10, 5],
+                _ => [10, 50, if qos2_ok { 15 } else { 0 }, 10, 10, 10],
+            };
+            if role.is_server() {
+                // SUBSCRIBE / UNSUBSCRIBE are client-to-server packets: a server never gets a SUBACK
+                w[3] = 0;
+                w[4] = 0;
+            }
+            match ch.weighted(&w) {
+                0 => ops.push(AppOp::PubQ0 { len }),
+                1 => ops.push(AppOp::PubQ1 { len, pid: None }),
+                2 => {
+                    ops.push(AppOp::PubQ2 { len, pid: None });
+                    ops.push(if ch.chance(1, 3) { AppOp::DropReceipt } else { AppOp::Release });
+                }
+                3 => ops.push(AppOp::Subscribe { n: 1 + ch.choose(3) as u8, pid: None }),
+                4 => ops.push(AppOp::Unsubscribe { n: 1 + ch.choose(2) as u8, pid: None }),
+                _ => ops.push(AppOp::Ready),
+            }
+        }
+        plan.senders.push(ops);
+    }
+    if kind == OutKind::C08 {
+        // streamed sends and sends that must fail in or before the encoder
+        let extra = 1 + ch.choose(2);
+        for _ in 0..extra {
+            let mut ops = Vec::new();
+            match ch.choose(4) {
+                0 => {
+                    let size = 1 + ch.choose(60);
+                    let mut chunks = Vec::new();
+                    let mut left = size;
+                    while left > 0 {
+                        let c = 1 + ch.choose(left);
+                        chunks.push(c);
+                        left -= c;
+                    }
+                    // sometimes under- or over-deliver
+                    match ch.choose(4) {
+                        0 => {
+                            chunks.pop();
+                        }
+                        1 => chunks.push(1 + ch.choose(5)),
+                        _ => {}
+                    }
+                    ops.push(AppOp::StreamQ1 { size, chunks, pid: None });
+                }
+                1 => {
+                    let size = 1 + ch.choose(60);
+                    let c1 = 1 + ch.choose(size);
+                    let mut chunks = vec![c1];
+                    if size > c1 {
+                        chunks.push(size - c1);
+                    }
+                    if ch.chance(1, 4) {
+                        chunks.pop();
+                    }
+                    ops.push(AppOp::StreamQ0 { size, chunks });
+                }
+                2 => ops.push(AppOp::BadTopicTooLong { qos: ch.choose(2) as u8 }),
+                _ => ops.push(AppOp::PubQ1 { len: 3, pid: Some(1 + ch.choose(3) as u16) }),
+            }
+            plan.senders.push(ops);
+        }
+    }
+    if kind == OutKind::C06 && ch.chance(1, 3) {
+        // caller-chosen ids, possibly colliding
+        let mut ops = Vec::new();
+        for _ in 0..(1 + ch.choose(2)) {
+            ops.push(AppOp::PubQ1 { len: 2, pid: Some(1 + ch.choose(3) as u16) });
+        }
+        plan.senders.push(ops);
+    }
+    plan.peer.auto_ack = true;
+    if v5 && ch.chance(1, 2) {
+        plan.peer.ack_codes = vec![0x00, 0x10, 0x00, 0x80, 0x87];
+    }
+    plan.peer.pubcomp_any_order = kind == OutKind::C14 && ch.chance(1, 2);
+    plan.peer.long_acks = v5 && ch.chance(1, 4);
+    if kind == OutKind::C06 && ch.chance(1, 2) {
+        plan.peer.deviation = *ch.pick(&[
+            AckDeviation::WrongType,
+            AckDeviation::Reorder,
+            AckDeviation::Duplicate,
+            AckDeviation::UnknownId,
+            AckDeviation::Unsolicited,
+        ]);
+        plan.peer.deviation_at = ch.choose(3);
+    }
+    // cancellation of waiting futures and write back-pressure
+    if matches!(kind, OutKind::C05 | OutKind::C13) {
+        plan.p_cancel = *ch.pick(&[0u32, 3, 8]);
+        if ch.chance(1, 2) {
+            plan.faults.p_wr_stall = *ch.pick(&[2u32, 6]);
+            plan.cfg.wr_hw = *ch.pick(&[64usize, 256, 1024]);
+            plan.cfg.wr_lw = plan.cfg.wr_hw / 4;
+        }
+    }
+    if kind == OutKind::C08 && ch.chance(1, 3) {
+        plan.faults.p_wr_stall = 3;
+        plan.cfg.wr_hw = 128;
+        plan.cfg.wr_lw = 32;
+    }
+    // some inbound traffic whose responses are written by the dispatcher, concurrently
+    if ch.chance(1, 3) {
+        let n = 1 + ch.choose(3);
+        for i in 0..n {
+            let p = mk_publish(role.ver(), ch, 100 + i, 1, Some(200 + i as u16), 5);
+            plan.peer.script.push(step(Pkt::Publish(p), role.ver(), Pre::Connected));
+        }
+        plan.p_immediate = 500;
+    }
+    plan.ending = Ending::Settle;
+    plan.max_steps = 12_000;
+    plan
 }
